@@ -105,6 +105,10 @@ pub fn generated_sources(r: &mut Rng, n: usize) -> Vec<(String, String)> {
             out.push((format!("gen{k}-alike"), alike_source(r)));
             continue;
         }
+        if k % 6 == 2 {
+            out.push((format!("gen{k}-folded"), folded_source(r)));
+            continue;
+        }
         let t = match r.below(3) {
             0 => crate::resolvep::template(r.below(5) as usize, r.below(4) as usize),
             1 => crate::resolvep::min_utxo_template(r.below(4) as usize),
@@ -126,6 +130,21 @@ pub fn alike_source(r: &mut Rng) -> String {
     format!(
         "party Sender;\nparty Receiver;\npolicy Pol = 0x{};\ntype R {{\n    a: Int,\n    b: {bty},\n}}\n\ntx t(quantity: Int) {{\n    input source {{\n        from: Sender,\n        min_amount: Ada(quantity) + fees,\n    }}\n{mint}    output {{\n        to: Receiver,\n        amount: source - fees + {tok},\n        datum: R {{ a: quantity, b: {bval}, }},\n    }}\n}}\n",
         hx(&[h; 28])
+    )
+}
+
+/// Two definitions of different kinds whose names differ only by case, and a reference written in a third spelling:
+/// no definition has that name, so the program is refused - whatever a toolchain does with it, it does every time.
+pub fn folded_source(r: &mut Rng) -> String {
+    let (a, b, c) = *r.pick(&[("Vault", "VAULT", "vault"), ("vault", "Vault", "VAULT"), ("Pool", "pool", "POOL")]);
+    let h = *r.pick(&[0x11u8, 0x22]);
+    let second = match r.below(3) {
+        0 => format!("policy {b} = 0x{};", hx(&[h; 28])),
+        1 => format!("party {b}x;\ntype {b} {{\n    n: Int,\n}}"),
+        _ => format!("asset {b} = 0x{}.\"TK\";", hx(&[h; 28])),
+    };
+    format!(
+        "party Sender;\nparty {a};\n{second}\n\ntx t(quantity: Int) {{\n    input source {{\n        from: Sender,\n        min_amount: Ada(quantity) + fees,\n    }}\n    output {{\n        to: {c},\n        amount: source - fees,\n    }}\n}}\n"
     )
 }
 
@@ -628,7 +647,7 @@ pub fn run_c18(opts: &Opts, out: &mut Emitter) {
             // fresh processes (new hash seeds): this binary, child mode
             let mut cross: std::collections::BTreeSet<String> = Default::default();
             let exe = std::env::current_exe().unwrap();
-            let procs = if k % 4 == 0 || opts.thorough || name.ends_with("-alike") { 3 } else { 0 };
+            let procs = if k % 4 == 0 || opts.thorough || name.ends_with("-alike") || name.ends_with("-folded") { 3 } else { 0 };
             let tmp = std::env::temp_dir().join(format!("tx3verif-{}-{k}.tx3", std::process::id()));
             if procs > 0 {
                 let _ = std::fs::write(&tmp, src);
@@ -772,7 +791,7 @@ pub fn interface_program(r: &mut Rng, collide: bool) -> IfaceProgram {
         // transaction body an expression can stand in (whatever walks the IR for its parameters has to reach it)
         let at = cased(r, &format!("at{k}"));
         params.push(at.clone());
-        let pos = r.below(14);
+        let pos = r.below(16);
         let reg = |entries: &str, items: &str, n: &str| format!("        datum: Reg {{ entries: {{{entries}}}, items: [{items}], n: {n}, }},\n");
         let (datum, blocks): (String, String) = match pos {
             0 => (reg(&format!("{at}: 1,"), "1,", "1"), String::new()),
@@ -788,6 +807,9 @@ pub fn interface_program(r: &mut Rng, collide: bool) -> IfaceProgram {
             10 => (String::new(), format!("    cardano::withdrawal {{\n        from: {sender},\n        amount: {at},\n        redeemer: (),\n    }}\n")),
             11 => (String::new(), format!("    cardano::withdrawal {{\n        from: {sender},\n        amount: 0,\n        redeemer: {at},\n    }}\n")),
             12 => (String::new(), format!("    output {{\n        to: {receiver},\n        amount: Ada({at}),\n    }}\n")),
+            // one metadata label written twice, the parameter in the earlier / the later entry
+            14 => (String::new(), format!("    metadata {{\n        674: {at},\n        674: 2,\n    }}\n")),
+            15 => (String::new(), format!("    metadata {{\n        674: 2,\n        674: {at},\n    }}\n")),
             _ => (reg(&format!("1: 1, {at}: 2,"), "1,", "1"), String::new()),
         };
         if collide && k == 0 {
